@@ -900,6 +900,152 @@ def _check_holders():
     fail("CardanoShelley.FromCip1852Object accepts a non-Cip1852 object: conf narrowing premise broken")
 
 
+# ---- in-place mutation of parameters (C15: "never mutates caller-supplied inputs") ----
+
+_IMMUTABLE_ANN = ("int", "str", "bytes", "bool", "float", "Optional[int]", "Optional[str]", "Optional[bytes]")
+
+
+def _all_functions(A):
+    """(qualified name, FunctionDef, class name or None, file) for every function in bip_utils"""
+    out = []
+    for k in sorted(A.classes):
+        c = A.classes[k]
+        for m in sorted(c.methods):
+            out.append((k + "." + m, c.methods[m], k, c.file))
+    root = os.path.join(REPO, PKG)
+    for dp, dns, fs in sorted(os.walk(root)):
+        dns.sort()
+        for f in sorted(fs):
+            if f.endswith(".py"):
+                p = os.path.join(dp, f)
+                rel = os.path.relpath(p, root)
+                tree = ast.parse(open(p, encoding="utf-8").read())
+                for n in tree.body:
+                    if isinstance(n, ast.FunctionDef):
+                        out.append((rel[:-3].replace("/", ".") + ":" + n.name, n, None, rel))
+    return out
+
+
+def _param_mutations(fn):
+    """parameters of fn mutated in place before any rebinding: [(param, line, how)]"""
+    params = [a for a in fn.args.posonlyargs + fn.args.args + fn.args.kwonlyargs if a.arg not in ("self", "cls")]
+    if fn.args.vararg or fn.args.kwarg:
+        pass
+    res = []
+    for a in params:
+        ann = ast.unparse(a.annotation) if a.annotation is not None else None
+        if ann in _IMMUTABLE_ANN:
+            continue
+        rebind = None
+        muts = []
+        for n in ast.walk(fn):
+            if isinstance(n, ast.Assign):
+                for t in n.targets:
+                    for e in (t.elts if isinstance(t, (ast.Tuple, ast.List)) else [t]):
+                        if isinstance(e, ast.Name) and e.id == a.arg:
+                            rebind = n.lineno if rebind is None else min(rebind, n.lineno)
+                        if isinstance(e, ast.Subscript) and isinstance(e.value, ast.Name) and e.value.id == a.arg:
+                            muts.append((n.lineno, "item assignment"))
+            elif isinstance(n, ast.AugAssign):
+                if isinstance(n.target, ast.Name) and n.target.id == a.arg:
+                    # `x += y` on a list/bytearray extends in place (and rebinds to the same object)
+                    muts.append((n.lineno, "augmented assignment"))
+                if isinstance(n.target, ast.Subscript) and isinstance(n.target.value, ast.Name) and n.target.value.id == a.arg:
+                    muts.append((n.lineno, "augmented item assignment"))
+            elif isinstance(n, ast.Delete):
+                for t in n.targets:
+                    if isinstance(t, ast.Subscript) and isinstance(t.value, ast.Name) and t.value.id == a.arg:
+                        muts.append((n.lineno, "del item"))
+            elif isinstance(n, ast.Call) and isinstance(n.func, ast.Attribute) and isinstance(n.func.value, ast.Name) \
+                    and n.func.value.id == a.arg and n.func.attr in MUTATING_CALLS:
+                muts.append((n.lineno, "." + n.func.attr + "()"))
+        for (ln, how) in muts:
+            if rebind is None or ln <= rebind:
+                if how == "augmented assignment" and ann is not None and not any(w in ann for w in ("List", "Dict", "Set", "bytearray", "Any", "Union")):
+                    continue
+                res.append((a.arg, ln, how))
+    return res
+
+
+def _returns_fresh(A, funcs_by_name, fn, depth=0):
+    """every `return` of fn yields None or an object created inside fn"""
+    if depth > 4:
+        return False
+    local_fresh = set()
+    params = set(a.arg for a in fn.args.posonlyargs + fn.args.args + fn.args.kwonlyargs)
+
+    def fresh_expr(e):
+        if isinstance(e, (ast.List, ast.ListComp, ast.Dict, ast.DictComp, ast.Set, ast.SetComp, ast.BinOp)):
+            return True
+        if isinstance(e, ast.Constant) and e.value is None:
+            return True
+        if isinstance(e, ast.Name):
+            return e.id in local_fresh
+        if isinstance(e, ast.Call):
+            if isinstance(e.func, ast.Name) and e.func.id in ("list", "bytearray", "dict", "set", "sorted"):
+                return True
+            nm = e.func.attr if isinstance(e.func, ast.Attribute) else (e.func.id if isinstance(e.func, ast.Name) else None)
+            cands = funcs_by_name.get(nm, [])
+            return bool(cands) and all(_returns_fresh(A, funcs_by_name, f, depth + 1) for f in cands)
+        return False
+    # names bound only to fresh expressions
+    binds = {}
+    for n in ast.walk(fn):
+        if isinstance(n, ast.Assign):
+            for t in n.targets:
+                if isinstance(t, ast.Name):
+                    binds.setdefault(t.id, []).append(n.value)
+    changed = True
+    while changed:
+        changed = False
+        for nm, vs in binds.items():
+            if nm not in params and nm not in local_fresh and all(fresh_expr(v) for v in vs):
+                local_fresh.add(nm)
+                changed = True
+    rets = [n for n in ast.walk(fn) if isinstance(n, ast.Return)]
+    return bool(rets) and all(r.value is None or fresh_expr(r.value) for r in rets)
+
+
+def param_mutation_tables(A):
+    funcs = _all_functions(A)
+    by_name = {}
+    for q, fn, k, rel in funcs:
+        by_name.setdefault(fn.name, []).append(fn)
+    mutators = []
+    for q, fn, k, rel in funcs:
+        for (param, ln, how) in _param_mutations(fn):
+            mutators.append((q, param, how, fn))
+    sites = []
+    for q, param, how, fn in mutators:
+        args = [a.arg for a in fn.args.posonlyargs + fn.args.args]
+        off = 1 if args and args[0] in ("self", "cls") else 0
+        pos = args.index(param) - off
+        for q2, fn2, k2, rel2 in funcs:
+            for n in ast.walk(fn2):
+                if isinstance(n, ast.Call) and ((isinstance(n.func, ast.Attribute) and n.func.attr == fn.name)
+                                                or (isinstance(n.func, ast.Name) and n.func.id == fn.name)):
+                    arg = None
+                    if pos < len(n.args):
+                        arg = n.args[pos]
+                    for kw in n.keywords:
+                        if kw.arg == param:
+                            arg = kw.value
+                    if arg is None:
+                        fail(f"{rel2}: {q2}: call of {q} without the mutated argument {param}")
+                    fresh = False
+                    if isinstance(arg, (ast.List, ast.ListComp, ast.BinOp)):
+                        fresh = True
+                    elif isinstance(arg, ast.Call):
+                        if isinstance(arg.func, ast.Name) and arg.func.id in ("list", "bytearray"):
+                            fresh = True
+                        else:
+                            nm = arg.func.attr if isinstance(arg.func, ast.Attribute) else getattr(arg.func, "id", None)
+                            cands = by_name.get(nm, [])
+                            fresh = bool(cands) and all(_returns_fresh(A, by_name, f) for f in cands)
+                    sites.append((q2, q, ast.unparse(arg), fresh))
+    return [(q, p, h) for q, p, h, _ in mutators], sites
+
+
 def _qs(s):
     return '"' + s + '"'
 
@@ -987,6 +1133,13 @@ def gen_objects():
     out.append("Definition undeclared_fields : list string := " + coq_list([_qs(x) for x in sorted(A.undeclared)]) + ".")
     out.append("(* assignments to fields of private copies / newly built objects (construction, not mutation) *)")
     out.append("Definition fresh_object_writes : list string := " + coq_list([_qs(x) for x in sorted(A.fresh_writes)]) + ".")
+    pm, sites = param_mutation_tables(A)
+    out.append("(* functions that mutate one of their parameters in place (before rebinding it): function, parameter, how *)")
+    out.append("Definition param_mutators : list (string * string * string) := " + coq_list(
+        ["(%s, %s, %s)" % (_qs(a), _qs(b), _qs(c)) for a, b, c in pm]) + ".")
+    out.append("(* every call of such a function: caller, callee, argument expression, is the argument a newly created object *)")
+    out.append("Definition param_mutator_call_sites : list (string * string * string * bool) := " + coq_list(
+        ["(%s, %s, %s, %s)" % (_qs(a), _qs(b), _qs(c.replace('"', "'")), "true" if d else "false") for a, b, c, d in sites]) + ".")
     out.append("Definition conf_subclasses : list string := " + coq_list([_qs(x) for x in sorted(A.subclasses("BipCoinConf"))]) + ".")
     out.append("Definition getattr_call_names : list string := " + coq_list([_qs(x) for x in A.getattr_names]) + ".")
     return "\n".join(out) + "\n"
